@@ -9,6 +9,7 @@ import Driver.Content
 import Driver.Format
 import Driver.ExprJson
 import Driver.Pipeline
+import Driver.Proto2
 
 open Driver
 
@@ -16,7 +17,7 @@ def dispatch (line : String) : String :=
   match (line.splitOn " ").filter (· ≠ "") with
   | [] => "bad-op"
   | cmd :: args =>
-    let handlers : List (String → Option (P String)) := [cmdPre, cmdContent, cmdFormat, cmdExprJson, cmdPipeline]
+    let handlers : List (String → Option (P String)) := [cmdPre, cmdContent, cmdFormat, cmdExprJson, cmdPipeline, cmdProto2]
     match handlers.findSome? (fun h => h cmd) with
     | none => "bad-op"
     | some p => match run p args with
